@@ -16,3 +16,4 @@ package telemetry
 //@   ensures [cases spec.nat_l(result0) 0..8] strict: result1 == nil ==> d.pos == old(d.pos) + int(spec.nat_len(result0)) && d.pos <= len(d.data) && forall(i, 0, 9, i < int(spec.nat_len(result0)) ==> d.data[old(d.pos)+i] == spec.nat_byte(result0, uint64(i)))
 //@   ghost x uint64
 //@   ensures [cases spec.nat_l(x) 0..8] complete: (len(d.data) - old(d.pos) >= int(spec.nat_len(x)) && forall(i, 0, 9, i < int(spec.nat_len(x)) ==> d.data[old(d.pos)+i] == spec.nat_byte(x, uint64(i)))) ==> (result1 == nil && result0 == x)
+//@   assigns d.pos
